@@ -57,6 +57,12 @@ def observe(calc, q):
         return arr_digest([calc.pressure_base.modulus_isothermal[k] for k in keys])
     if q == "tp_volumes":
         return arr_digest([calc.pressure_base.volumes])
+    if q in ("tp_attr_adiabatic", "tp_attr_isothermal"):
+        # attribute-style names of the pressure base (c11s, c11t, ...): the longitudinal and off-diagonal components, whose two
+        # tensors differ
+        ns = [k for k in keys if k.voigt[0] <= 3 and k.voigt[1] <= 3][:4]
+        suf = "s" if q == "tp_attr_adiabatic" else "t"
+        return arr_digest([numpy.asarray(getattr(calc.pressure_base, "c%d%d%s" % (*k.voigt, suf))) for k in ns])
     if q == "compliances":
         out = []                                   # through the public attributes s11 .. s66 of the volume base
         for i in range(1, 7):
